@@ -18,7 +18,19 @@ func tagb(code uint16, kind byte) []byte {
 	return []byte{byte(code >> 8), byte(code), kind}
 }
 func cntb(n int) []byte { return be16b(uint16(n)) }
-func secs(d time.Duration) []byte { return be32b(uint32(d / time.Second)) }
+// secs: a duration field as the 32-bit seconds value it stands for; a value no 32-bit field can carry
+// (negative, more than 2^32-1 s, or a fraction of a second) is dumped in full so that it never compares equal
+// to what a wire field decodes to
+func secs(d time.Duration) []byte {
+	if d >= 0 && d%time.Second == 0 && d/time.Second <= 0xffffffff {
+		return be32b(uint32(d / time.Second))
+	}
+	out := []byte{0xff, 0xff, 0xff, 0xff}
+	for i := 7; i >= 0; i-- {
+		out = append(out, byte(uint64(d)>>(8*uint(i))))
+	}
+	return out
+}
 
 // field reads an exported field (possibly of an unexported struct type).
 func field(v interface{}, name string) interface{} {
@@ -208,6 +220,9 @@ func dumpOpt(o dhcpv6.Option) [][]byte {
 		return [][]byte{t, b}
 	case dhcpv6.OptionElapsedTime:
 		d := field(o, "ElapsedTime").(time.Duration)
+		if u := 10 * time.Millisecond; d < 0 || d%u != 0 || d/u > 0xffff {
+			return [][]byte{t, append([]byte{0xff, 0xff}, secs(-1-d)...)} // not a value a 16-bit field of 10 ms units can carry
+		}
 		return [][]byte{t, be16b(uint16(d / (10 * time.Millisecond)))}
 	case dhcpv6.OptionRelayMsg:
 		switch m := field(o, "Msg").(type) {
